@@ -26,6 +26,7 @@ import (
 	"sync/atomic"
 	"time"
 
+	"github.com/hashicorp/raft"
 	"github.com/rqlite/rqlite/v10/command/proto"
 	"github.com/rqlite/rqlite/v10/internal/verif/vsql"
 	"pgregory.net/rapid"
@@ -786,4 +787,24 @@ func g8aRestoreOnly(src, dst, id string) (dump, integrity string, openErr, infra
 		return d, "", fmt.Errorf("integrity_check of restored database: %w", err), nil
 	}
 	return d, ic, nil, nil
+}
+
+// g8aConfigIndex returns the index of the node's latest configuration entry
+// (raft publishes the configuration but not its index: ConfigurationFuture
+// .Index() of GetConfiguration and the "latest_configuration_index" stat are
+// always 0). It is the newest LogConfiguration entry of the log, or else the
+// configuration index recorded in the newest snapshot.
+func g8aConfigIndex(s *Store) uint64 {
+	if fi, li, err := s.boltStore.Indexes(); err == nil && li != 0 {
+		for i := li; i >= fi && i > 0; i-- {
+			var lg raft.Log
+			if s.boltStore.GetLog(i, &lg) == nil && lg.Type == raft.LogConfiguration {
+				return i
+			}
+		}
+	}
+	if metas, err := s.snapshotStore.List(); err == nil && len(metas) > 0 {
+		return metas[0].ConfigurationIndex
+	}
+	return 0
 }
